@@ -197,7 +197,7 @@ def main(prop, tier, seed, replay_path=None):
         scen = {1: [(1, doc['hist'])]}
         mc = dict(distinct=1, generated=1, completed=True, cmd='')
     else:
-        charts = family_bdd(rng, 4 if quick else 8)
+        charts = family_bdd(rng, 4 if quick else 6)
         d = tlc.workdir('C19_bdd')
         with open(os.path.join(d, 'ChartsData.tla'), 'w') as f:
             f.write(gc.tla_charts_module('ChartsData', charts))
@@ -216,7 +216,7 @@ def main(prop, tier, seed, replay_path=None):
                     continue                      # only scenarios that end with an assertion
                 sid += 1
                 scen.setdefault(j['ci'], []).append((sid, h))
-        cap = 36000 if quick else 250000        # bound the work: a seeded sample of the enumerated scenarios
+        cap = 36000 if quick else 90000        # bound the work: a seeded sample of the enumerated scenarios
         tot = sum(len(v) for v in scen.values())
         if tot > cap:
             for ci in scen:
